@@ -36,7 +36,7 @@ for pid in ids:
             evidence_file=f"evidence/{pid}.json",
             replay_cmd_template=f"./check {pid} --replay {{path}}",
             engine="pyvc",
-            level_claimed=dict(category="proof", text=c["text"], design_ref=c.get("design_ref", "DESIGN.md section 3")),
+            level_claimed=dict(category=PROPERTIES[pid].get("level", "proof"), text=c["text"], design_ref=c.get("design_ref", "DESIGN.md section 3")),
             level_note=c["note"],
             technique=c.get("technique", "contract-based deductive verification: VCs generated from the real Python AST, discharged by z3/cvc5"),
         ))
